@@ -32,6 +32,7 @@ Definition run_case (x : sexp) : sexp :=
         else if String.eqb fam "c12" then run_c12_case payload
         else if String.eqb fam "c12s" then run_c12s_case payload
         else if String.eqb fam "c17" then run_c17_case payload
+      else if String.eqb fam "c17x" then run_c17x_case payload
         else if String.eqb fam "c09describe" then run_describe_case payload
         else if String.eqb fam "c10mutants" then run_mutant_case payload
         else if String.eqb fam "structobj" then run_xschema_case payload
